@@ -39,28 +39,6 @@ pub fn tokenize(source: &str, file_id: &FileId) -> (Vec<Token>, Vec<Diagnostic>)
                     col,
                     text: lexer.slice().into(),
                 });
-
-                match token_type {
-                    TokenType::Newline => {
-                        line += 1;
-                        col = 0;
-                    }
-                    TokenType::Comment => {
-                        // Comments can have new lines embedded
-                        for c in lexer.slice().chars() {
-                            match c {
-                                '\n' => {
-                                    line += 1;
-                                    col = 0;
-                                }
-                                _ => {
-                                    col += 0;
-                                }
-                            }
-                        }
-                    }
-                    _ => col += lexer.span().len(),
-                }
             }
             Err(_) => {
                 let span = lexer.span();
@@ -79,6 +57,20 @@ pub fn tokenize(source: &str, file_id: &FileId) -> (Vec<Token>, Vec<Diagnostic>)
                         ),
                     ),
                 ))
+            }
+        }
+
+        // Advance the position past the matched text. The text (in particular
+        // comments and strings) can have new lines embedded.
+        for c in lexer.slice().chars() {
+            match c {
+                '\n' => {
+                    line += 1;
+                    col = 0;
+                }
+                _ => {
+                    col += 1;
+                }
             }
         }
     }
